@@ -147,6 +147,14 @@ def cmdline(case, plain):
     if v7:
         out.append('%s%s' % (pre(3), ['', 'enable-docs',
                                       'disable-manual'][v7]))
+    # a value given, overridden and given again (the last one counts; the
+    # same token occurs twice on the command line)
+    if vals[3]:
+        out += ['%snum=%s' % (pre(3), ['', '-1', '7'][vals[3]]),
+                '%snum=%s' % (pre(3), ['', '7', '-1'][vals[3]])]
+    if vals[1]:
+        out += ['%s%s-foo' % (pre(1), ['', 'disable', 'enable'][vals[1]]),
+                '%s%s-foo' % (pre(1), ['', 'enable', 'disable'][vals[1]])]
     return out
 
 
